@@ -5,9 +5,11 @@ wt=$1; own=0
 if [ -z "$wt" ]; then wt=/tmp/wt_matrix_$$; git -C /repo worktree add -q --detach $wt HEAD; own=1; fi
 mkdir -p /verif/selftest
 out=/verif/selftest/matrix.tsv
-echo -e "mutant\tproperty\tapplies\texit\tsignatures" > $out
-for d in /verif/seeded/C*/; do
+# MATRIX_ONLY='C*_g*' re-takes only the matching rows (the others are kept as they are)
+if [ -z "$MATRIX_ONLY" ]; then echo -e "mutant\tproperty\tapplies\texit\tsignatures" > $out; fi
+for d in /verif/seeded/${MATRIX_ONLY:-C*}/; do
   m=$(basename $d); pid=${m%%_*}
+  if [ -n "$MATRIX_ONLY" ]; then grep -v "^$m	" $out > $out.tmp; mv $out.tmp $out; fi
   git -C $wt checkout -q -- .
   if ! git -C $wt apply --check $d/patch.diff 2>/dev/null; then echo -e "$m\t$pid\tno\t-\t-" >> $out; continue; fi
   git -C $wt apply $d/patch.diff
